@@ -32,6 +32,7 @@ def c17(chk, prop, tier, seed, nshards, workdir, t0):
         merged["evaluations"] += sum(r["evaluations"] for r in reps)
     base_k, base = runs[0]
     mismatches = 0
+    sets_differ = None
     for k, d in runs[1:]:
         for key, h in base.items():
             if key in d and d[key] != h:
@@ -47,12 +48,14 @@ def c17(chk, prop, tier, seed, nshards, workdir, t0):
                 sig = "%s|%s|differs-between-processes|any" % (prop, fn)
                 merged["sig_counts"][sig] = merged["sig_counts"].get(sig, 0) + 1
         if set(d) != set(base):
-            chk.log("INCONCLUSIVE: digest runs covered different case sets")
-            return 2
+            # the processes did not produce the same list of (case, function) results: the
+            # digests they share are still compared, violations found anywhere are still
+            # reported, and only a run without any violation ends inconclusive for this reason
+            sets_differ = "digest runs covered different (case, function) sets: %d vs %d keys" % (len(base), len(d))
     merged["counters"]["reach:fresh-processes-compared"] = len(runs)
     merged["counters"]["reach:digests-compared-per-process"] = len(base)
     extra_cov = {"cross_process": {"processes": len(runs), "rayon_pool_sizes": pools, "digests_per_process": len(base), "mismatches": mismatches}}
-    return chk.finish(prop, tier, seed, merged, time.time() - t0, extra_cov=extra_cov)
+    return chk.finish(prop, tier, seed, merged, time.time() - t0, extra_cov=extra_cov, inconclusive=sets_differ)
 
 
 def _pub_fns(repo):
